@@ -15,6 +15,15 @@ package main
 //                 checked against the same reference
 //   root-assign   BEGINFILE `$ = ...`, element writes seen by later rules and by
 //                 ENDFILE, two BEGINFILE rules, selectors
+//   var-assign    programs that ASSIGN to $file, $index and $ in every rule kind
+//                 and print all three at the start of every rule, over several
+//                 values per file, several files, the same file twice, selectors;
+//                 the reference re-binds exactly what the driver re-binds ($file
+//                 per decoded value, $index per array element, $ per rule / element)
+//   long-schedules  5 000 - 200 000 elements (one array, JSONL, chunks, several
+//                 files) that leave their rules by next (body / function / nested
+//                 functions / match body / pattern), exit at a late element;
+//                 counts predicted in closed form
 
 import (
 	"encoding/json"
@@ -153,6 +162,7 @@ type c02Gen struct {
 	nvals    int
 	used     map[string]bool // helper functions used
 	unmarked bool            // an exit without an EXIT marker line was generated
+	asg      bool            // this program assigns to $file / $index and prints them in every rule that can
 }
 
 // a statement and whether it must be followed by a newline (match) / may not be followed by ';' (brace)
@@ -199,6 +209,9 @@ func (g *c02Gen) printStmt(kind int, tag string) c02Stmt {
 	}
 	if chance(r, 0.3) {
 		args = append(args, "c")
+	}
+	if g.asg && kind != c02B && (kind != c02E || g.nvals > 0) && !strings.Contains(strings.Join(args, " "), "$file") {
+		args = append(args, "$file")
 	}
 	return c02Stmt{text: "print " + strings.Join(args, ", ")}
 }
@@ -323,6 +336,17 @@ func (g *c02Gen) body(kind int, tag string) string {
 				stmts = append(stmts, ctl2, after)
 			}
 		}
+	}
+	if g.asg && kind != c02B && chance(r, 0.45) {
+		// an assignment to a variable the driver binds: lasts until the driver binds it again
+		// ($file: the next JSON value; $index: the next array element)
+		pool := []string{`$file = "F"`, `$file = $file + "'"`, `$file = c`, `$file = [$file]`, `$file = "` + tag + `"`}
+		if g.idxSafe && (kind == c02P || chance(r, 0.3)) {
+			pool = append(pool, "$index = 40", "$index += 100", `$index = "i"`, "$index = $index * 2")
+		}
+		st := c02Stmt{text: pick(r, pool)}
+		at := r.Intn(len(stmts) + 1)
+		stmts = append(stmts[:at], append([]c02Stmt{st}, stmts[at:]...)...)
 	}
 	if kind == c02P && chance(r, 0.08) {
 		// a write to the element, seen by later rules and by ENDFILE
@@ -573,6 +597,13 @@ const (
 	c02OpCallExit
 	c02OpSetNum // $ = k
 	c02OpSetArr // $ = [k, k+1]
+	// assignments to the driver's variables (family var-assign)
+	c02OpPrintAll  // print tag, $, $index, $file
+	c02OpSetFile   // $file = "own<k>"
+	c02OpAppFile   // $file = $file + "+"
+	c02OpSetIdx    // $index = 10 + k
+	c02OpAddIdx    // $index += 10
+	c02OpFnSetFile // setf("own<k>"): the assignment happens inside a function
 )
 
 type c02RAct struct{ op, k int }
@@ -642,6 +673,18 @@ func c02ActSrc(a c02RAct, tag string) (string, bool) {
 		return fmt.Sprintf("$ = %d", a.k), false
 	case c02OpSetArr:
 		return fmt.Sprintf("$ = [%d, %d]", a.k, a.k+1), false
+	case c02OpPrintAll:
+		return "print " + q + ", $, $index, $file", false
+	case c02OpSetFile:
+		return fmt.Sprintf("$file = \"own%d\"", a.k), false
+	case c02OpAppFile:
+		return `$file = $file + "+"`, false
+	case c02OpSetIdx:
+		return fmt.Sprintf("$index = %d", 10+a.k), false
+	case c02OpAddIdx:
+		return "$index += 10", false
+	case c02OpFnSetFile:
+		return fmt.Sprintf("setf(\"own%d\")", a.k), false
 	default:
 		return "rexit(" + q + ")", false
 	}
@@ -649,7 +692,7 @@ func c02ActSrc(a c02RAct, tag string) (string, bool) {
 
 func c02RRender(r *rand.Rand, rules []c02RRule) string {
 	var sb strings.Builder
-	usesNext, usesExit, usesPNext := false, false, false
+	usesNext, usesExit, usesPNext, usesSetF := false, false, false, false
 	for i, ru := range rules {
 		if ru.kind != c02P {
 			sb.WriteString(c02Kw[ru.kind])
@@ -672,6 +715,9 @@ func c02RRender(r *rand.Rand, rules []c02RRule) string {
 				}
 				if a.op == c02OpCallExit {
 					usesExit = true
+				}
+				if a.op == c02OpFnSetFile {
+					usesSetF = true
 				}
 				sb.WriteString(s)
 				if j < len(ru.acts)-1 {
@@ -696,6 +742,9 @@ func c02RRender(r *rand.Rand, rules []c02RRule) string {
 	}
 	if usesExit {
 		sb.WriteString("\nfunction rexit(t) { print t, \"rexit\"; exit; print \"unreachable\" }")
+	}
+	if usesSetF {
+		sb.WriteString("\nfunction setf(v) { $file = v }")
 	}
 	return sb.String()
 }
@@ -723,6 +772,17 @@ type c02RefState struct {
 	file     string
 	c        int
 	cSet     bool
+	// where a read of / an assignment to an unbound $index or $file stopped the run
+	// (errAct < 0: in the rule's pattern); the generator of var-assign uses it to
+	// keep most programs free of that fault
+	errTag string
+	errAct int
+	errWhy string
+}
+
+func (s *c02RefState) unbound(ru c02RRule, act int, why string) int {
+	s.errTag, s.errAct, s.errWhy = ru.tag, act, why
+	return c02FlowErr
 }
 
 const (
@@ -754,9 +814,37 @@ func (s *c02RefState) runBody(ru c02RRule, cell *any) int {
 		s.out.WriteString(c02Render(*cell) + "\n")
 		return c02FlowOK
 	}
-	for _, a := range ru.acts {
+	for ai, a := range ru.acts {
 		dollar := *cell
 		switch a.op {
+		case c02OpPrintAll:
+			if !s.idxKnown {
+				return s.unbound(ru, ai, "idx")
+			}
+			if s.file == "" {
+				return s.unbound(ru, ai, "file")
+			}
+			s.out.WriteString(ru.tag + " " + c02Render(dollar) + " " + strconv.Itoa(s.idx) + " " + s.file + "\n")
+		case c02OpSetFile, c02OpFnSetFile:
+			if s.file == "" {
+				return s.unbound(ru, ai, "file") // unknown variable $file: $-names are never created by use
+			}
+			s.file = "own" + strconv.Itoa(a.k)
+		case c02OpAppFile:
+			if s.file == "" {
+				return s.unbound(ru, ai, "file")
+			}
+			s.file += "+"
+		case c02OpSetIdx:
+			if !s.idxKnown {
+				return s.unbound(ru, ai, "idx")
+			}
+			s.idx = 10 + a.k
+		case c02OpAddIdx:
+			if !s.idxKnown {
+				return s.unbound(ru, ai, "idx")
+			}
+			s.idx += 10
 		case c02OpSetNum:
 			*cell = float64(a.k)
 		case c02OpSetArr:
@@ -765,12 +853,12 @@ func (s *c02RefState) runBody(ru c02RRule, cell *any) int {
 			s.out.WriteString(ru.tag + " " + c02Render(dollar) + "\n")
 		case c02OpPrintIdx:
 			if !s.idxKnown {
-				return c02FlowErr
+				return s.unbound(ru, ai, "idx")
 			}
 			s.out.WriteString(ru.tag + " " + c02Render(dollar) + " " + strconv.Itoa(s.idx) + "\n")
 		case c02OpPrintFile:
 			if s.file == "" {
-				return c02FlowErr
+				return s.unbound(ru, ai, "file")
 			}
 			s.out.WriteString(ru.tag + " " + c02Render(dollar) + " " + s.file + "\n")
 		case c02OpPrintC:
@@ -842,7 +930,7 @@ func (s *c02RefState) elem(rules []c02RRule, cell *any) int {
 			match = false
 		case c02PatIdxEven:
 			if !s.idxKnown {
-				return c02FlowErr
+				return s.unbound(ru, -1, "idx")
 			}
 			match = s.idx%2 == 0
 		case c02PatGt, c02PatEq:
@@ -896,7 +984,17 @@ func c02ApplySel(sel string, v any) (any, bool) {
 // c02RefRun predicts class and output of a restricted program: the schedule of
 // the property statement written out directly.
 func c02RefRun(rules []c02RRule, files []File, sels []string) (class string, out string) {
-	s := &c02RefState{}
+	class, out, _ = c02RefRunState(rules, files, sels)
+	return
+}
+
+func c02RefRunState(rules []c02RRule, files []File, sels []string) (class string, out string, s *c02RefState) {
+	s = &c02RefState{}
+	class, out = c02RefRun1(s, rules, files, sels)
+	return
+}
+
+func c02RefRun1(s *c02RefState, rules []c02RRule, files []File, sels []string) (class string, out string) {
 	fin := func(fl int) (string, string) {
 		switch fl {
 		case c02FlowErr:
@@ -1090,6 +1188,386 @@ func c02RefRule(r *rand.Rand, kind int, idx int) c02RRule {
 	return ru
 }
 
+// ---------------------------------------------------------------- var-assign
+//
+// What the driver binds, and when (src/evaluator.go EvalProgram, evalPatternRules):
+//   $file   a fresh global cell before EVERY decoded JSON value (not per selector root,
+//           not per element); unbound before the first value (BEGIN) — reading or
+//           assigning it there is the runtime error "unknown variable $file"
+//   $index  a fresh cell before every ELEMENT of an array root; never touched for
+//           non-array roots, BEGINFILE, ENDFILE, END (they see the last value, stale)
+//   $       BEGIN/END: a fresh null cell per rule; BEGINFILE: the root cell (shared by
+//           the BEGINFILE rules); pattern rules: the element cell (or the root cell);
+//           ENDFILE: a fresh cell per rule holding the root value as selected
+// An assignment by the program therefore lasts exactly until the next such binding.
+
+func c02AssignRule(r *rand.Rand, kind int, idx int) c02RRule {
+	ru := c02RRule{kind: kind, tag: c02TagPrefix[kind] + strconv.Itoa(idx)}
+	if kind == c02P {
+		ru.pat = pick(r, []int{c02PatNone, c02PatNone, c02PatNone, c02PatNone, c02PatTrue, c02PatFalse, c02PatIdxEven, c02PatIdxEven, c02PatGt, c02PatEq, c02PatNextIf})
+		ru.k = r.Intn(4)
+		if ru.pat != c02PatNone && chance(r, 0.06) {
+			ru.bodyless = true
+			return ru
+		}
+	}
+	show := c02RAct{op: c02OpPrintAll}
+	if kind == c02B {
+		show.op = c02OpPrint
+	}
+	ru.acts = append(ru.acts, show) // every rule starts by printing $, $index, $file
+	var pool []c02RAct
+	switch kind {
+	case c02B:
+		pool = []c02RAct{{op: c02OpSetNum, k: r.Intn(4)}, {op: c02OpSetArr, k: r.Intn(4)}, {op: c02OpInc},
+			{op: c02OpSetFile, k: r.Intn(3)}, {op: c02OpSetIdx, k: r.Intn(3)}} // the last two: unbound there (kept in few programs)
+	case c02P:
+		pool = []c02RAct{{op: c02OpSetNum, k: r.Intn(4)}, {op: c02OpSetFile, k: r.Intn(3)}, {op: c02OpSetFile, k: r.Intn(3)}, {op: c02OpAppFile},
+			{op: c02OpSetIdx, k: r.Intn(3)}, {op: c02OpSetIdx, k: r.Intn(3)}, {op: c02OpAddIdx}, {op: c02OpFnSetFile, k: r.Intn(3)}, {op: c02OpInc}}
+	default:
+		pool = []c02RAct{{op: c02OpSetNum, k: r.Intn(4)}, {op: c02OpSetArr, k: r.Intn(4)}, {op: c02OpSetFile, k: r.Intn(3)}, {op: c02OpSetFile, k: r.Intn(3)}, {op: c02OpAppFile},
+			{op: c02OpSetIdx, k: r.Intn(3)}, {op: c02OpAddIdx}, {op: c02OpFnSetFile, k: r.Intn(3)}, {op: c02OpInc}}
+	}
+	na := pick(r, []int{0, 1, 1, 1, 2, 2, 3})
+	for i := 0; i < na; i++ {
+		ru.acts = append(ru.acts, pick(r, pool))
+	}
+	if na > 0 && chance(r, 0.4) {
+		ru.acts = append(ru.acts, show) // the assignment is visible at once
+	}
+	if chance(r, 0.25) {
+		var ctl c02RAct
+		switch k := r.Intn(10); {
+		case k < 3:
+			ctl = c02RAct{op: c02OpNext}
+		case k < 4:
+			ctl = c02RAct{op: c02OpCallNext}
+		case k < 7 && kind == c02P:
+			ctl = c02RAct{op: c02OpIfNext, k: r.Intn(4)}
+		case k < 8 && kind == c02P:
+			ctl = c02RAct{op: c02OpIfExit, k: r.Intn(5)}
+		case k < 9:
+			ctl = c02RAct{op: c02OpCallExit}
+		default:
+			ctl = c02RAct{op: c02OpNext}
+		}
+		at := r.Intn(len(ru.acts)) + 1 // never before the opening print
+		ru.acts = append(ru.acts[:at], append([]c02RAct{ctl}, ru.acts[at:]...)...)
+	}
+	return ru
+}
+
+// c02AssignFiles: 1-3 files with 1-4 values each (JSONL or concatenated); a later
+// file may carry the NAME of an earlier one (the same file given twice).
+func c02AssignFiles(r *rand.Rand) []File {
+	nf := pick(r, []int{1, 1, 2, 2, 2, 3})
+	var files []File
+	for i := 0; i < nf; i++ {
+		nv := pick(r, []int{1, 2, 2, 3, 3, 4})
+		vals := make([]string, nv)
+		for j := range vals {
+			switch k := r.Intn(10); {
+			case k < 6:
+				vals[j] = pick(r, []string{"[1,2,3]", "[0]", "[2,1]", "[3,2,2,4]", "[4,0,2]", "[2,2]", "[1,3]"})
+			case k < 7:
+				vals[j] = "[]"
+			case k < 9:
+				vals[j] = strconv.Itoa(r.Intn(5))
+			default:
+				vals[j] = pick(r, []string{"null", "[[1,2],3]", "[null,2]"})
+			}
+		}
+		if i == 0 && chance(r, 0.9) {
+			vals[0] = pick(r, []string{"[1,2,3]", "[0]", "[2,1]", "[3,2,2,4]", "[4,0,2]"}) // $index bound early in most runs
+		}
+		sep := pick(r, []string{"\n", "\n", " ", "\r\n", "\t"})
+		name := c02Names[i]
+		data := strings.Join(vals, sep) + pick(r, []string{"", "\n"})
+		if i > 0 && chance(r, 0.3) {
+			prev := files[r.Intn(i)]
+			name = prev.Name
+			if chance(r, 0.5) {
+				data = string(prev.Data)
+			}
+		}
+		files = append(files, File{Name: name, Data: []byte(data)})
+	}
+	return files
+}
+
+// c02AssignCase: one program of the family with its prediction. Unless keepFaults,
+// reads of / assignments to an unbound $index or $file are taken out again (the
+// reference tells where the run stopped), so that most runs reach END.
+func c02AssignCase(r *rand.Rand) (prog string, files []File, sels []string, class, out string, faults int) {
+	kinds := []int{c02B, c02BF, c02P, c02P, c02EF, c02E} // every rule kind at least once
+	for n := r.Intn(4); n > 0; n-- {
+		kinds = append(kinds, pick(r, []int{c02BF, c02EF, c02P, c02P, c02P, c02E, c02B}))
+	}
+	r.Shuffle(len(kinds), func(a, b int) { kinds[a], kinds[b] = kinds[b], kinds[a] })
+	rules := make([]c02RRule, len(kinds))
+	for j, k := range kinds {
+		rules[j] = c02AssignRule(r, k, j)
+	}
+	for j := 0; j+1 < len(rules); j++ {
+		if rules[j].bodyless && rules[j+1].kind == c02P && rules[j+1].pat == c02PatNone {
+			rules[j+1].pat = c02PatTrue
+		}
+	}
+	files = c02AssignFiles(r)
+	switch r.Intn(10) {
+	case 0, 1, 2:
+		sels = []string{pick(r, []string{"$", "$", "$[0]", "$[1]", "[$, 1]"})}
+	case 3, 4:
+		sels = []string{pick(r, []string{"$", "$[0]", "[$, 1]"}), pick(r, []string{"$", "$", "$[1]", "[$, 1]"})}
+	}
+	keepFaults := chance(r, 0.06)
+	var st *c02RefState
+	for iter := 0; ; iter++ {
+		class, out, st = c02RefRunState(rules, files, sels)
+		if st.errWhy == "" || keepFaults || iter > 60 {
+			break
+		}
+		for j := range rules {
+			if rules[j].tag != st.errTag {
+				continue
+			}
+			if st.errAct < 0 {
+				rules[j].pat = c02PatTrue
+				break
+			}
+			a := &rules[j].acts[st.errAct]
+			switch {
+			case a.op == c02OpPrintAll && st.errWhy == "idx":
+				a.op = c02OpPrintFile
+			case a.op == c02OpPrintAll:
+				a.op = c02OpPrintIdx
+			case a.op == c02OpPrintIdx || a.op == c02OpPrintFile:
+				a.op = c02OpPrint
+			default: // an assignment to the unbound variable
+				rules[j].acts = append(append([]c02RAct{}, rules[j].acts[:st.errAct]...), rules[j].acts[st.errAct+1:]...)
+			}
+			break
+		}
+	}
+	if st.errWhy != "" {
+		faults = 1
+	}
+	prog = c02RRender(r, rules)
+	return
+}
+
+// ---------------------------------------------------------------- long-schedules
+//
+// Thousands of elements, each of which (or every K-th) leaves its rules early.
+// The counters printed by END (and by a periodic rule) have a closed form; a
+// schedule that loses elements, stops early, runs rules of an abandoned element
+// or lets residue of the abandoned rules (frames, bindings) pile up shows there.
+
+var c02LongHows = []string{"body", "fn", "fn-deep", "match-body", "match-in-fn", "pattern-fn", "pattern-match"}
+var c02LongShapes = []string{"one-array", "jsonl-scalars", "jsonl-chunks", "three-files"}
+
+func c02Cnt(n int) string {
+	if n == 0 {
+		return "<unknown>" // never assigned
+	}
+	return strconv.Itoa(n)
+}
+
+// c02LongInput builds the files and the sequence of roots (each a list of element values).
+func c02LongInput(n int, shape string) (files []File, roots [][]int, isArr []bool) {
+	arr := func(lo, hi int) (string, []int) {
+		var sb strings.Builder
+		var el []int
+		sb.WriteByte('[')
+		for i := lo; i < hi; i++ {
+			if i > lo {
+				sb.WriteByte(',')
+			}
+			sb.WriteString(strconv.Itoa(i))
+			el = append(el, i)
+		}
+		sb.WriteByte(']')
+		return sb.String(), el
+	}
+	scalars := func(lo, hi int) string {
+		var sb strings.Builder
+		for i := lo; i < hi; i++ {
+			sb.WriteString(strconv.Itoa(i))
+			sb.WriteByte('\n')
+			roots = append(roots, []int{i})
+			isArr = append(isArr, false)
+		}
+		return sb.String()
+	}
+	chunks := func(lo, hi, size int) string {
+		var sb strings.Builder
+		for i := lo; i < hi; i += size {
+			e := i + size
+			if e > hi {
+				e = hi
+			}
+			t, el := arr(i, e)
+			sb.WriteString(t)
+			sb.WriteByte('\n')
+			roots = append(roots, el)
+			isArr = append(isArr, true)
+		}
+		return sb.String()
+	}
+	switch shape {
+	case "one-array":
+		t, el := arr(0, n)
+		roots = append(roots, el)
+		isArr = append(isArr, true)
+		files = []File{{Name: "in.json", Data: []byte(t)}}
+	case "jsonl-scalars":
+		files = []File{{Name: "in.jsonl", Data: []byte(scalars(0, n))}}
+	case "jsonl-chunks":
+		files = []File{{Name: "in.jsonl", Data: []byte(chunks(0, n, 100))}}
+	default:
+		a, b := n/3, 2*n/3
+		t, el := arr(0, a)
+		roots = append(roots, el)
+		isArr = append(isArr, true)
+		files = append(files, File{Name: "a.json", Data: []byte(t)})
+		files = append(files, File{Name: "b.jsonl", Data: []byte(scalars(a, b))})
+		files = append(files, File{Name: "a.json", Data: []byte(chunks(b, n, 37))})
+	}
+	return
+}
+
+// c02Long emits one case: n elements 0..n-1; the elements divisible by k leave their
+// rules the way `how` says; exitForm != "" ends the run at element exitAt.
+func c02Long(n int, how, shape string, k int, exitForm string, exitAt int, emit func(Case)) {
+	files, roots, isArr := c02LongInput(n, shape)
+	period := n/5 + 1
+	var fns, rules []string
+	rules = append(rules, "BEGINFILE { bf++ }", "{ seen++ }")
+	switch exitForm {
+	case "body":
+		rules = append(rules, fmt.Sprintf("$ == %d { exit }", exitAt))
+	case "fn":
+		fns = append(fns, fmt.Sprintf("function stop(v) { if (v == %d) exit\n return v }", exitAt))
+		rules = append(rules, "{ stop($) }")
+	case "pattern":
+		fns = append(fns, fmt.Sprintf("function stopp(v) { if (v == %d) exit\n return false }", exitAt))
+		rules = append(rules, "stopp($) { never++ }")
+	}
+	usesRem := false
+	switch how {
+	case "body":
+		rules = append(rules, fmt.Sprintf("$ %% %d == 0 { left++; next }", k), "{ kept++ }")
+	case "fn":
+		fns = append(fns, fmt.Sprintf("function skip(v) { if (v %% %d == 0) { next }\n return v }", k))
+		rules = append(rules, "{ skip($); kept++ }")
+	case "fn-deep":
+		fns = append(fns, "function a1(v) { return a2(v) + 0 }", fmt.Sprintf("function a2(v) { if (v %% %d == 0) next\n return v }", k))
+		rules = append(rules, "{ x = a1($); kept++ }")
+	case "match-body":
+		usesRem = true
+		rules = append(rules, fmt.Sprintf("{ match ($ %% %d) { 0 => { next }, r => { rem = rem + r } }\n kept++ }", k))
+	case "match-in-fn":
+		usesRem = true
+		fns = append(fns, fmt.Sprintf("function cls(v) { return match (v %% %d) { 0 => { next }, r => r } }", k))
+		rules = append(rules, "{ rem = rem + cls($); kept++ }")
+	case "pattern-fn":
+		fns = append(fns, fmt.Sprintf("function pskip(v) { if (v %% %d == 0) next\n return true }", k))
+		rules = append(rules, "pskip($) { kept++ }")
+	default: // pattern-match
+		rules = append(rules, fmt.Sprintf("match ($ %% %d) { 0 => { next }, r => true } { kept++ }", k))
+	}
+	// $index: bound for every element of an array root, stale (the last element's) for a scalar root,
+	// unbound while no array element has been seen
+	idxBound := shape != "jsonl-scalars"
+	if idxBound {
+		rules = append(rules, "{ after++; last = $; li = $index }")
+	} else {
+		rules = append(rules, "{ after++; last = $ }")
+	}
+	rules = append(rules,
+		fmt.Sprintf("$ %% %d == 1 { print \"at\", $, seen, kept, after }", period),
+		"{ fin++ }",
+		"ENDFILE { ef++ }",
+		"END { print seen, kept, after, last, li, bf, ef, rem, left, fin, v is unknown, r is unknown }")
+	if usesRem {
+		rules = append([]string{"BEGIN { rem = 0 }"}, rules...) // a name first used inside a match body would be local to it
+	}
+	prog := strings.Join(append(fns, rules...), "\n") + "\n"
+
+	var w strings.Builder
+	seen, kept, after, last, bf, ef, rem, left := 0, 0, 0, -1, 0, 0, 0, 0
+	idx, li := -1, -1
+	exited := false
+run:
+	for ri, root := range roots {
+		bf++
+		for pos, i := range root {
+			if isArr[ri] {
+				idx = pos
+			}
+			seen++
+			if exitForm != "" && i == exitAt {
+				exited = true
+				break run
+			}
+			if i%k == 0 {
+				if how == "body" {
+					left++
+				}
+				continue
+			}
+			kept++
+			if usesRem {
+				rem += i % k
+			}
+			after++
+			last = i
+			if idxBound {
+				li = idx
+			}
+			if i%period == 1 {
+				fmt.Fprintf(&w, "at %d %d %d %d\n", i, seen, kept, after)
+			}
+		}
+		ef++
+	}
+	if !exited {
+		lastS := "<unknown>"
+		if last >= 0 {
+			lastS = strconv.Itoa(last)
+		}
+		remS := "<unknown>"
+		if usesRem {
+			remS = strconv.Itoa(rem)
+		}
+		liS := "<unknown>"
+		if li >= 0 {
+			liS = strconv.Itoa(li)
+		}
+		fmt.Fprintf(&w, "%s %s %s %s %s %s %s %s %s %s true true\n", c02Cnt(seen), c02Cnt(kept), c02Cnt(after), lastS, liS, c02Cnt(bf), c02Cnt(ef), remS, c02Cnt(left), c02Cnt(after))
+	}
+	want := w.String()
+	// the model's stream decoder takes time quadratic in the number of top-level values
+	// (50 000 scalars: ~55 s); beyond 20 000 roots the closed form alone decides
+	implOnly := len(roots) > 20000
+	emit(Case{Req: RunReq(prog, nil, files, false), Fields: []string{"class", "out", "depth"}, ImplOnly: implOnly,
+		Meta: metaProg(prog, "input", fmt.Sprintf("%d elements 0..%d, shape %s (%d roots, %d files)", n, n-1, shape, len(roots), len(files)),
+			"how", how, "every", strconv.Itoa(k), "exit", fmt.Sprintf("%s@%d", exitForm, exitAt), "reference", strconv.Quote(want)),
+		Oracle: func(i Resp) string {
+			if i["class"] != "ok" {
+				return fmt.Sprintf("a run in which %d elements leave their rules by next (%s) must end successfully: class %s (%s), output %q", n/k, how, i["class"], i["msg"], short(string(i.Bytes("out"))))
+			}
+			if got := string(i.Bytes("out")); got != want {
+				return fmt.Sprintf("counts differ from the schedule of the property (every element visited once, next abandons that element's remaining rules only, END once at the end unless exit): expected %q, got %q", want, got)
+			}
+			if d, ok := i["depth"]; ok && d != "0" {
+				return "frames left on the evaluator stack at the end of the run: depth " + d
+			}
+			return ""
+		},
+		NonTrivial: func(i Resp) bool { return i["class"] == "ok" }})
+}
+
 func c02Permutations(n int) [][]int {
 	if n == 1 {
 		return [][]int{{0}}
@@ -1109,13 +1587,13 @@ func c02Permutations(n int) [][]int {
 func init() {
 	register(Family{
 		Name: "sched-trace", Prop: "C02",
-		Rule: "2-9 rules of all five kinds in mixed source order, each printing its tag with $ (and $index, $file, a counter); patterns of every truth value, body-less rules, next/exit plain, conditional, in loops, match arms and called functions; 0-3 files x 0-3 values x 0-2 selectors x roots of every shape; oracle: BEGIN output first, END output last, both in source order, nothing after an EXIT marker, no sentinel; non-trivial = ok/runtime with output",
+		Rule: "2-9 rules of all five kinds in mixed source order, each printing its tag with $ (and $index, $file, a counter); in 15 % of the programs the rules also assign to $file / $index (constants, containers, derived values) and every rule prints $file; patterns of every truth value, body-less rules, next/exit plain, conditional, in loops, match arms and called functions; 0-3 files x 0-3 values x 0-2 selectors x roots of every shape; oracle: BEGIN output first, END output last, both in source order, nothing after an EXIT marker, no sentinel; non-trivial = ok/runtime with output",
 		Gen: func(r *rand.Rand, tier string, emit func(Case)) {
 			n := tierN(tier, 6000, 150000)
 			for i := 0; i < n; i++ {
 				files, firstArr, nvals := c02Inputs(r)
 				sels := c02Sels(r)
-				g := &c02Gen{r: r, firstArr: firstArr, idxSafe: firstArr && len(sels) == 0, nvals: nvals, used: map[string]bool{}}
+				g := &c02Gen{r: r, firstArr: firstArr, idxSafe: firstArr && len(sels) == 0, nvals: nvals, used: map[string]bool{}, asg: nvals > 0 && chance(r, 0.15)}
 				p := g.program()
 				allTagged := !p.anyBodyless // body-less rules print an untagged line
 				emit(Case{Req: RunReq(p.text, sels, files, false), Fields: []string{"class", "out"},
@@ -1222,6 +1700,54 @@ func init() {
 				emit(Case{Req: RunReq(prog, nil, inputs[c.in], false), Fields: []string{"class", "out"},
 					Meta:   metaProg(prog, "files", c02FilesMeta(inputs[c.in]), "reference", class+" "+strconv.Quote(out)),
 					Oracle: c02RefOracle(class, out)})
+			}
+		},
+	})
+
+	register(Family{
+		Name: "var-assign", Prop: "C02",
+		Rule: "every rule kind (BEGIN, BEGINFILE, pattern rules with and without patterns, ENDFILE, END; 6-9 rules in random source order) starts by printing $, $index, $file and then ASSIGNS to $file (constant, append, inside a function), $index (constant, += 10) and $ (number, array), prints again, may leave by next/exit; 1-3 files x 1-4 values (JSONL / concatenated), a later file may repeat the name (and content) of an earlier one, 0-2 selectors; the Go reference re-binds $file per decoded value, $index per array element, $ per rule/element exactly as EvalProgram does, so an assignment lasts until the next binding and no longer; reads of unbound $index/$file are generated in 6 % of the programs only; compared with the reference (oracle) and the model",
+		Gen: func(r *rand.Rand, tier string, emit func(Case)) {
+			n := tierN(tier, 5000, 100000)
+			for i := 0; i < n; i++ {
+				prog, files, sels, class, out, faults := c02AssignCase(r)
+				emit(Case{Req: RunReq(prog, sels, files, false), Fields: []string{"class", "out"},
+					Meta:   metaProg(prog, "selectors", strings.Join(sels, " | "), "files", c02FilesMeta(files), "reference", class+" "+strconv.Quote(out), "unbound-read", strconv.Itoa(faults)),
+					Oracle: c02RefOracle(class, out)})
+			}
+		},
+	})
+
+	register(Family{
+		Name: "long-schedules", Prop: "C02",
+		Rule: "inputs of 5 000 and 10 000 elements (thorough: also 50 000 and 200 000) as one array, as JSONL of scalars, as JSONL of 100-element arrays, and spread over three files (two under the same name); the elements divisible by K (1, 2, 3, 7: every / every K-th element) leave their rules by next in a rule body / in a function / two functions deep / in a match body / in a match inside a function / in a function called from a pattern / in a match expression that is the pattern; further rules count what still runs; some runs exit at a late element (from a body, a function, a pattern); sizes 4095-4097 around the call-depth limit; END prints the counters, a periodic rule prints them on the way; oracle: closed-form counts computed in Go, class ok, depth 0; compared with the model",
+		Gen: func(r *rand.Rand, tier string, emit func(Case)) {
+			ks := []int{1, 2, 3, 7}
+			for _, how := range c02LongHows {
+				for _, shape := range c02LongShapes {
+					c02Long(5000, how, shape, pick(r, ks), "", 0, emit)
+				}
+				c02Long(10000, how, pick(r, c02LongShapes), pick(r, ks[1:]), "", 0, emit)
+			}
+			for _, form := range []string{"body", "fn", "pattern"} {
+				for _, shape := range []string{"one-array", "three-files"} {
+					n := 5000
+					c02Long(n, pick(r, c02LongHows[1:]), shape, pick(r, ks), form, n-1-r.Intn(n/10), emit)
+				}
+			}
+			for _, n := range []int{4095, 4096, 4097} {
+				for _, how := range []string{"fn", "fn-deep", "match-in-fn", "pattern-fn", "pattern-match"} {
+					c02Long(n, how, "one-array", 1, "", 0, emit)
+				}
+			}
+			if tier == "thorough" {
+				for _, how := range c02LongHows {
+					for _, shape := range c02LongShapes {
+						c02Long(50000, how, shape, pick(r, ks), "", 0, emit)
+					}
+					c02Long(200000, how, pick(r, c02LongShapes), pick(r, ks[1:]), "", 0, emit)
+					c02Long(200000, how, "one-array", 1, "fn", 199000+r.Intn(1000), emit)
+				}
 			}
 		},
 	})
